@@ -152,6 +152,9 @@ def cases(tier):
             ((2, 1), 2, 2, (False,), "geometric", False, True, True, True, False),
             ((3,), 2, 2, (False,), "flat", True, False, False, False, True),
             ((1, 2), 2, 2, (True,), "harmonic", False, True, False, False, False),
+            # two windows whose totals are combined, kernel-level normalisation on, offsets that can empty one side
+            ((3,), 2, 1, (True, False), "flat", True, True, True, False, False),
+            ((2,), 2, 2, (True, False), "harmonic", True, True, True, False, False),
         ]
     else:
         grid = []
@@ -161,6 +164,7 @@ def cases(tier):
                 grid.append(((2, 2), 2, 2, (True, False), kind, nwn, True, False, kind == "geometric", False))
                 grid.append(((3,), 3, 2, (False,), kind, nwn, True, True, kind == "geometric", True))
                 grid.append(((0, 3, 1), 2, 2, (True,), kind, nwn, True, True, False, True))
+                grid.append(((3,), 2, 2, (True, False), kind, nwn, True, True, False, False))
     for g in grid:
         doc_lens, V, R, rev, kind, nwn, so, sk, sp, ptr = g
         name = "token_unit[docs=%s,V=%d,R=%d,rev=%s,%s,nw=%s,off=%s,knorm=%s,pow=%s,ptr=%s]" % (
